@@ -469,7 +469,7 @@ def c08(tier):
         # traversal - insertion - traversal on each class family (labelled, multigraph, weighted)
         for cls in (0, 1, 2):
             n = (2 if tier == "quick" else 3) if not und else (1 if tier == "quick" else 2)
-            ob = iter_ob(und, n, 5, optional_reach=[""], mem_gb=12, timeout=300 if tier == "quick" else 3400)
+            ob = iter_ob(und, n, 5, optional_reach=[""], mem_gb=12, timeout=900 if tier == "quick" else 3400)
             ob["defs"]["CLS"] = cls
             ob["id"] += "-" + ("labelled", "multigraph", "weighted")[cls]
             obs.append(ob)
@@ -510,11 +510,11 @@ def c09(tier):
                 continue
             kw = {"optional_reach": [""]} if n < 3 else {}
             if n >= 3:
-                kw.update(timeout=3000 if tier == "thorough" else 300, mem_gb=12)
+                kw.update(timeout=3000 if tier == "thorough" else 900, mem_gb=12)
             obs.append(conv_ob(q, n, **kw))
     for q in (1, 4):
         for n in (((0, 2) if q == 1 else (0, 1)) if tier == "quick" else ((0, 1, 2, 3) if q == 1 else (0, 1, 2))):
-            obs.append(conv_ob(q, n, optional_reach=[""] if n < 2 else [], timeout=3000 if tier == "thorough" else 300, mem_gb=12 if n >= 2 else 4))
+            obs.append(conv_ob(q, n, optional_reach=[""] if n < 2 else [], timeout=3000 if tier == "thorough" else 900, mem_gb=12 if n >= 2 else 4))
     for q in (10, 11, 12, 13, 14, 15, 16, 17):
         for cont in (0, 1):
             if tier == "quick":
@@ -780,6 +780,9 @@ def bin_ob(prop, und, bl, q, n=3, emaxw=2, recs=2, **kw):
     b = graph_bounds(defs) + ",loadBinaryEdgeList=%d,le_bytes=10" % (max(emaxw, recs) + 3)
     b = "harness=%d,file_set=%d,write=%d,read=%d,put_=%d," % (max(12, n * n + n + 2), defs["VERIF_FILE_CAP"] + 2, 10, 10, 10) + b
     ob = {"id": "%s/%s/%s/%s%s" % (prop, "und" if und else "dir", BL_NAMES[bl], BIN_Q[q], "-n%d-e%d" % (n, emaxw) if q < 2 else ("-r%d" % recs if q in (2, 3, 6, 7) else "")), "src": "binio.cpp", "defs": defs, "bounds": b, "count_ub": True, "optional_reach": [""], "no_validate": q in (0, 1, 2, 3, 4, 6, 7) }
+    if q in (6, 7):
+        defs["VERIF_VEC_CAP"] = max(recs, 1) + 1     # the recording graph keeps its edge list in a std::vector
+        ob["bounds"] = ob["bounds"].replace("default=", "vector=%d,default=" % (recs + 4))
     ob.update(kw)
     return ob
 
@@ -855,22 +858,26 @@ def c13(tier):
     obs = [txt_ob("C13", 0, llen=6 if tier == "quick" else 10)]
     for und in (0, 1):
         for lab in (0, 1):
-            obs.append(txt_ob("C13", 1, und=und, lab=lab, lines=2 if tier == "quick" else 3, timeout=300 if tier == "quick" else 3400, mem_gb=8 if tier == "quick" else 16))
+            obs.append(txt_ob("C13", 1, und=und, lab=lab, lines=2 if tier == "quick" else 3, timeout=900 if tier == "quick" else 3400, mem_gb=8 if tier == "quick" else 16))
             if not und or tier == "thorough":
                 obs.append(txt_ob("C13", 3, und=und, lab=lab, n=3 if not und else 2, emaxw=2, **({"mem_gb": 14, "timeout": 3000} if und else {})))
             else:
                 obs.append(txt_ob("C13", 3, und=und, lab=lab, n=1, emaxw=1, mem_gb=8))     # undirected writer on 2 vertices: thorough tier
-        obs.append(txt_ob("C13", 2, und=und, lab=0, lines=2 if tier == "quick" else 3, timeout=300 if tier == "quick" else 3400, mem_gb=8 if tier == "quick" else 16))
+        obs.append(txt_ob("C13", 2, und=und, lab=0, lines=2 if tier == "quick" else 3, timeout=900 if tier == "quick" else 3400, mem_gb=8 if tier == "quick" else 16))
     return obs
 
 
 def c15_txt(tier):
     obs = [txt_ob("C15", 0, llen=6 if tier == "quick" else 10)]
     if tier == "quick":
-        obs.append(txt_ob("C15", 4, llen=4, timeout=600, mem_gb=8))
+        obs.append(txt_ob("C15", 4, llen=4, timeout=1200, mem_gb=8))
     else:
         obs.append(txt_ob("C15", 4, llen=5, timeout=3400, mem_gb=20))
         obs.append(txt_ob("C15", 4, llen=3, full=True, timeout=3400, mem_gb=20))
+    for o in obs:
+        if o["defs"]["Q"] == 4:
+            # "vertex indices kept small enough to allocate": a two-digit index asks for more vertices than the vector model holds (11)
+            o["allowed_cuts"] = ["std::vector model: resize beyond VERIF_VEC_CAP"]
     return obs
 
 
@@ -882,7 +889,7 @@ PROPS["C13"] = {"gen": c13,
     "assumptions": ["stream/string model: getline extracts up to and excluding the newline, sets failbit when nothing is extracted"]}
 PROPS["C15"] = {"gen": lambda tier: c15_bin(tier) + c15_txt(tier),
     "bounds": {"quick": "binary: valid files of 2 records (indices < 3, all label types directed; NoLabel and int undirected) cut at EVERY byte offset 0..len; text: every byte string of <=4 bytes over {'0','1','9','-','+',' ','\\t','#','x','\\n',0x80} through loadTextEdgeList, every line of <=6 bytes through the tokeniser", "thorough": "3 records; text of <=5 bytes over the alphabet and <=3 arbitrary bytes"},
-    "outside": "longer files; indices too large to allocate (the model bounds vector sizes by its capacity - an assumption)",
+    "outside": "longer files; text indices above 10 (the vector model holds 11 vertices: the declared capacity cut \"resize beyond VERIF_VEC_CAP\", reported in the evidence)",
     "explanation": "The buffer is a valid file cut at a symbolic offset; the loader must throw or return exactly the edges of the complete records. A short read leaves its destination partly unwritten, and unwritten / stale locals are nondeterministic in the encoding, so an edge pieced together from a partial record is a reachable assertion failure.",
     "assumptions": ["stream model: a short read copies what is there and sets failbit; once failed nothing is extracted"]}
 
